@@ -1025,6 +1025,10 @@ impl<'a> Gen<'a> {
                 } else {
                     self.expr(mk, d.min(2), env)
                 };
+                // never a macro that names itself (by @name or by (@ "name") with a literal that
+                // happens to spell the name): unbounded recursion is resource exhaustion
+                let own = json_str(&name);
+                let mbody = if mbody.any(&|x| matches!(x, Expr::Mac(n) if *n == name) || matches!(x, Expr::Call { f, args } if f == "@" && matches!(args.first(), Some(Expr::Lit(t)) if *t == own))) { Expr::Lit(self.lit(mk, 1)) } else { mbody };
                 let mut e2 = env.clone();
                 e2.macros.push((name.clone(), mk));
                 let body = self.expr(want, d, &e2);
